@@ -34,6 +34,7 @@ GENERATORS = [
     ('gen_dispatch', 'Dispatch.lean', _unsup),
     ('gen_hdr', 'Hdr.lean', _unsup),
     ('gen_segstate', 'SegState.lean', lambda r: {'unsupported': r['unsupported'], 'mutations': r['mutations'], 'acct': r['acct']}),
+    ('gen_defaults', 'Defaults.lean', _unsup),
     ('tables_xml', 'XmlTables.lean', lambda r: None),
 ]
 
